@@ -521,26 +521,23 @@ Definition react_on_changed_assets (server : bool) (k : akind) (pr : peer_state)
 
 (* process_mesh_assets / process_image_assets / process_audio_assets: downloads that completed
    (oracle: class, id, content) are inserted into Assets<T> with a handle token *)
-Fixpoint remove1_pending (c : aclass) (a : uuid) (l : list (aclass * uuid * peer)) : list (aclass * uuid * peer) :=
-  match l with
-  | [] => []
-  | x :: l => if (kind_num (KClass x.1.1) =? kind_num (KClass c)) && (x.1.2 =? a) then l else x :: remove1_pending c a l
-  end.
-
-(* [last] = no other download of the id is under way when this one is applied (oracle): the request is
-   forgotten; otherwise one request of the id is. Content [None]: the thread of a download
-   that arrived after a download of a LATER request of the same id (requests are numbered, repair of
-   defect S31) and was dropped is over: nothing is applied, only the registry follows (which arrival
-   is outdated is decided by the numbering discipline modelled and proved in Abs/Downloads.v; here it
-   is an oracle event) *)
+(* One entry of the oracle list: (class, id, content, forgotten).
+   Content [Some v]: process_* applies a download that has arrived (a handle token, the asset inserted).
+   Content [None]: nothing is applied.
+   [forgotten]: in this frame the real registry of pending downloads removed its entry of the id (its last
+   download thread ended or its last arrived bytes were applied, whichever came last, and nothing of the id
+   is under way or waiting any more): every request of the id is forgotten. Until then the requests stay
+   (the registry holds ONE entry per id with the owner of the LATEST request, which is what [pending_of]
+   reads). Which downloads arrive, in which order, and which of them are dropped as outdated (repair of
+   defect S31) is the subject of Abs/Downloads.v; here all of that is oracle input. *)
 Definition process_assets (pr : peer_state) (c : aclass) (done : list (aclass * uuid * option N * bool)) : peer_state :=
-  foldl (fun pr '(c', a, v, last) =>
+  foldl (fun pr '(c', a, v, forgotten) =>
            if kind_num (KClass c') =? kind_num (KClass c) then
              let pr := match v with Some _ => pr <| t_htok := a :: t_htok pr |> | None => pr end in
              let pr := pr <| d_pending :=
-                          if (last : bool)
+                          if (forgotten : bool)
                           then filter (fun x : aclass * uuid * peer => negb ((kind_num (KClass x.1.1) =? kind_num (KClass c)) && (x.1.2 =? a))) (d_pending pr)
-                          else remove1_pending c a (d_pending pr) |> in
+                          else d_pending pr |> in
              match v with Some v => insert_asset pr (KClass c) a v | None => pr end
            else pr) pr done.
 
@@ -717,7 +714,7 @@ Record frame_oracle := {
   fo_status : option renet_status;       (* client: RenetClient status after this frame's renet update *)
   fo_srv_poll : list peer;               (* host poll: sender of each message received, in order *)
   fo_cli_poll : nat;                     (* client poll: number of messages received *)
-  fo_downloads : list (aclass * uuid * option N * bool);   (* downloads whose payload the process_* systems apply in this frame (None: dropped on arrival as outdated); the flag: no other download of the id is under way *)
+  fo_downloads : list (aclass * uuid * option N * bool);   (* downloads whose payload the process_* systems apply in this frame (None: nothing applied); the flag: the registry forgot the id in this frame *)
 }.
 
 Definition run_body (pr : peer_state) (s : sysid) (o : frame_oracle) : peer_state :=
